@@ -1,14 +1,83 @@
 /-
-  C02 — Formatting is idempotent: property theorems on the L4 model, fragment F0.
+  C02 — Formatting is idempotent: property theorems on the L4 model, fragment F0, every printer
+  option except KeepPadding.
 -/
-import ShVerif.Model.L4Syntax
+import ShVerif.Proofs.L4
 namespace ShVerif.Props.C02
 open ShVerif ShVerif.L4
 
-/-- The full statement (kept as a definition: it is false of the model and of the code, see the
-    counter-example below and known-findings C02-*). -/
+deriving instance DecidableEq for Except
+
+/-- The full statement.  It is false of the model and of the code (`idempotent_fails`, known
+    findings C02-subshell-trailing-blank and C02-closing-paren-space), so it stays a definition. -/
 def idempotent_statement : Prop :=
-  ∀ (o : Opts) (l : Lang) (f f' : File) (b : Bytes), o.keepPadding = false →
+  ∀ (o : Opts) (l : Lang) (f f' : File) (b : Bytes), f.wf = true → o.keepPadding = false →
     printFile o f = .ok b → parse l b = .ok f' → printFile o f' = .ok b
+
+/-- second formatting pass: parse, then print -/
+def reprint (o : Opts) (l : Lang) (b : Bytes) : Except PrintErr Bytes :=
+  match parse l b with
+  | .ok f => printFile o f
+  | .error _ => .error .panic
+
+theorem reprint_of_parse {o l b f} (h : parse l b = .ok f) : reprint o l b = printFile o f := by
+  unfold reprint; rw [h]
+
+/-! ### The recorded defect C02-subshell-trailing-blank on the model -/
+
+private def w1 (offs line col : Nat) (s : String) : Word :=
+  ⟨[.lit ⟨offs, line, col⟩ ⟨offs + 1, line, col + 1⟩ (bytesOfString s)]⟩
+
+/-- `( (s)` NEWLINE `)` as the parser produces it -/
+def trailingBlankWitness : File :=
+  ⟨.cons (.mk ⟨0, 1, 1⟩ Pos.zero false false
+      (.subshell ⟨0, 1, 1⟩ ⟨6, 2, 1⟩
+        (.cons (.mk ⟨2, 1, 3⟩ Pos.zero false false
+          (.subshell ⟨2, 1, 3⟩ ⟨4, 1, 5⟩ (.cons (.mk ⟨3, 1, 4⟩ Pos.zero false false (.call [w1 3 1 4 "s"])) .nil))) .nil))) .nil⟩
+
+/-- first pass: `( ` NEWLINE TAB `(s)` NEWLINE `)` — a blank before the line break -/
+theorem trailingBlank_first :
+    printFile {} trailingBlankWitness = .ok (bytesOfString "( \n\t(s)\n)\n") := by
+  decide +kernel
+
+/-- second pass: `(` NEWLINE TAB `(s)` NEWLINE `)` -/
+theorem trailingBlank_second :
+    reprint {} .bash (bytesOfString "( \n\t(s)\n)\n") = .ok (bytesOfString "(\n\t(s)\n)\n") := by
+  decide +kernel
+
+/-- Hence the full statement is false (default options, a tree that the parser produces). -/
+theorem idempotent_fails : ¬ idempotent_statement := by
+  intro h
+  cases hp : parse .bash (bytesOfString "( \n\t(s)\n)\n") with
+  | error e =>
+    have h2 := trailingBlank_second
+    unfold reprint at h2
+    rw [hp] at h2
+    cases h2
+  | ok f' =>
+    have h1 := h {} .bash trailingBlankWitness f' _ (by decide +kernel) rfl trailingBlank_first hp
+    have h2 := trailingBlank_second
+    rw [reprint_of_parse hp, h1] at h2
+    revert h2
+    decide +kernel
+
+/-! ### C02-closing-paren-space on the model: POSIX `((a;b))` -/
+
+/-- `( (a;b))` : two subshells opened and closed on one line, two statements inside -/
+def closingParenWitness : File :=
+  ⟨.cons (.mk ⟨0, 1, 1⟩ Pos.zero false false
+      (.subshell ⟨0, 1, 1⟩ ⟨7, 1, 8⟩
+        (.cons (.mk ⟨2, 1, 3⟩ Pos.zero false false
+          (.subshell ⟨2, 1, 3⟩ ⟨6, 1, 7⟩
+            (.cons (.mk ⟨3, 1, 4⟩ ⟨4, 1, 5⟩ false false (.call [w1 3 1 4 "a"]))
+              (.cons (.mk ⟨5, 1, 6⟩ Pos.zero false false (.call [w1 5 1 6 "b"])) .nil)))) .nil))) .nil⟩
+
+theorem closingParen_first :
+    printFile {} closingParenWitness = .ok (bytesOfString "( (\n\ta\n\tb\n) )\n") := by
+  decide +kernel
+
+theorem closingParen_second :
+    reprint {} .posix (bytesOfString "( (\n\ta\n\tb\n) )\n") = .ok (bytesOfString "( (\n\ta\n\tb\n))\n") := by
+  decide +kernel
 
 end ShVerif.Props.C02
